@@ -497,6 +497,10 @@ def proved(run):
         ob_unarycycleremove(run)
     except (I.OutOfSubset, KeyError) as e:
         run.obligation("C07/cfg.CFG.unarycycleremove/no-unary-cycle", "out-of-subset", detail=str(e))
+    try:
+        ob_trim_useful(run)
+    except (I.OutOfSubset, KeyError) as e:
+        run.obligation("C07/cfg.CFG.trim/only-useful-rules", "out-of-subset", detail=str(e))
 
     def est(fn, fact, **kw):
         nm = f"C07/cfg.{fn}/establishes-{fact}"
@@ -816,3 +820,148 @@ def ob_unarycycleremove(run):
         return False
     run.obligation(name, "proved", ms=ms, detail=f"{len(results)} paths, {sites} unary add sites: every unary rule strictly increases the rank, hence no unary cycle (uses SCC_ORDER B4/B5)")
     return True
+
+
+# ------------------------------------------------------------------ trim: only useful rules (soundness of both work-list passes)
+def ob_trim_useful(run):
+    """Every insertion into the generating set C is supported by a rule whose body is already in C; every insertion into the
+    reachable set T comes from a rule with head in T and an all-generating body, and T starts as {S} only if S is generating.
+    With `_trim` (proved above) the result keeps only rules whose symbols are all in T, T subset of C.  The induction over the
+    insertion order (ghost ranks) is the meta-step; completeness of the fixed points is checked bounded (C06/C07 stand-ins)."""
+    name = "C07/cfg.CFG.trim/only-useful-rules"
+    fn = source.find(CFG, "CFG.trim")
+    run.function_under_contract("genlm.grammar.cfg.CFG.trim", source.sha(fn))
+    wl = source.loops(fn, (ast.While,))
+    if len(wl) != 2:
+        run.obligation(name, "out-of-subset", detail=f"expected two work-list loops, found {len(wl)}")
+        return
+    inits = [st for st in fn.body if isinstance(st, ast.Assign) and ast.unparse(st.targets[0]) == "T"]
+    if len(inits) != 1:
+        run.obligation(name, "out-of-subset", detail="cannot find the initialisation of T")
+        return
+
+    class GrowSet:
+        """A set given by a membership predicate; records insertions."""
+
+        def __init__(self, nm):
+            self.mem = z3.Function("in_" + nm, S.SYM, z3.BoolSort())
+            self.ins = []
+
+        def __pyvc_contains__(self, interp, x):
+            return I.Z(self.mem(I.zexpr(x)))
+
+        def __pyvc_getattr__(self, interp, nm, node):
+            if nm == "add":
+                return I.Native("add", lambda i2, a, k: self.ins.append((a[0], list(i2.path.pc), list(i2.path.qfacts))))
+            if nm in ("pop", "update"):
+                return I.Native(nm, lambda i2, a, k: None)
+            raise I.OutOfSubset("set." + nm)
+
+    def run_body(which):
+        loop = wl[which]
+
+        def harness(path):
+            it = I.Interp(path)
+            Cset, Tset, agenda = GrowSet("C"), GrowSet("T"), GrowSet("agenda")
+            x = S.sym("x")
+            e = S.RuleVal(I.Z(z3.Real("w_e")), S.sym("head_e"), S.BaseSeq("body_e"))
+            path.assume(e.body.L >= 0)
+
+            class Index:
+                def __pyvc_getitem__(self, interp, k, node):
+                    return [e]
+
+            if which == 1:
+                path.assume(e.head.e == x.e)          # e in incoming[x]
+                path.assume(Tset.mem(x.e))            # agenda is a subset of T (every agenda.add follows a T.add of the same symbol)
+            env = I.Env(None, {"C": Cset, "T": Tset, "agenda": agenda, "outgoing": Index(), "incoming": Index(), "x": x})
+            jj = S.fresh("j")
+            for lp in source.loops(loop, (ast.For,)):
+                if ast.unparse(lp.iter) == "e.body":
+                    def generic_b(i2, st, env_, jj=jj):
+                        i2.path.assume(z3.And(jj >= 0, jj < e.body.L))
+                        i2.assign(st.target, I.Z(e.body.elem(jj)), env_)
+                        try:
+                            i2.exec_block(st.body, env_)
+                        except (I._Continue, I._Break):
+                            pass
+                    it.loop_hooks[id(lp)] = generic_b
+            body = [st for st in loop.body if not (isinstance(st, ast.Assign) and ast.unparse(st.value) == "agenda.pop()")]
+            try:
+                it.exec_block(body, env)
+            except (I._Continue, I._Break):
+                pass
+            return dict(C=Cset, T=Tset, e=e, x=x, j=jj)
+
+        return I.explore(harness)
+
+    def all_instances(qfacts, interp_path, seq_elem, idx):
+        out = []
+        for kind, b, seq, _ in qfacts:
+            if kind == "all":
+                it2 = I.Interp(interp_path)
+                v = seq.at(it2, I.Z(idx))
+                out.append(z3.Implies(b, v.e if isinstance(v, I.Z) else z3.BoolVal(bool(v))))
+        return out
+
+    try:
+        r1 = run_body(0)
+        r2 = run_body(1)
+    except (I.OutOfSubset, I.PyRaise) as e:
+        run.obligation(name, "out-of-subset", detail=str(e))
+        return
+    ok, why, sites = True, "", 0
+    for path, r in r1:
+        e = r["e"]
+        for (sym_, pc, qf) in r["C"].ins:
+            sites += 1
+            i = S.fresh("i")
+            inst = all_instances(qf, path, e.body, i)
+            goal = z3.And(I.zexpr(sym_) == e.head.e, z3.Implies(z3.And(i >= 0, i < e.body.L), r["C"].mem(e.body.elem(i))))
+            if smt.prove(pc + inst, goal)["verdict"] != "proved":
+                ok, why = False, "a symbol enters the generating set C without a rule whose whole body is already in C"
+        if r["T"].ins:
+            ok, why = False, "the bottom-up pass writes to T"
+    for path, r in r2:
+        e = r["e"]
+        for (sym_, pc, qf) in r["T"].ins:
+            sites += 1
+            i = S.fresh("i")
+            inst = all_instances(qf, path, e.body, i)
+            goal = z3.And(r["T"].mem(e.head.e),                                                        # the rule's head is reachable
+                          z3.Implies(z3.And(i >= 0, i < e.body.L), r["C"].mem(e.body.elem(i))),          # the rule is all-generating
+                          I.zexpr(sym_) == e.body.elem(r["j"]))                                          # and the new symbol is one of its body symbols
+            if smt.prove(pc + inst, goal)["verdict"] != "proved":
+                ok, why = False, "a symbol enters the reachable set T through a rule that is dropped afterwards (some body symbol is not generating) or whose head is not in T"
+    # initialisation of T
+    try:
+        path = I.Path([])
+        it = I.Interp(path)
+        Cs = GrowSet("C")
+        Ssym = S.sym("S")
+        env = I.Env(None, {"C": Cs, "self": G.Bag(S=Ssym)})
+
+        def h(p):
+            it2 = I.Interp(p)
+            it2.exec_stmt(inits[0], env)
+            return env.get("T")
+
+        for p, T0 in I.explore(h):
+            elems = list(T0) if isinstance(T0, (set, frozenset, list)) else None
+            if elems is None:
+                ok, why = False, "T is not initialised with a set literal"
+            for y in elems or []:
+                sites += 1
+                if smt.prove(list(p.pc), z3.And(I.zexpr(y) == Ssym.e, Cs.mem(Ssym.e)))["verdict"] != "proved":
+                    ok, why = False, "T is seeded with a symbol that is not the (generating) start symbol"
+    except (I.OutOfSubset, I.PyRaise) as e:
+        run.obligation(name, "out-of-subset", detail=str(e))
+        return
+    final_trim = [n for n in ast.walk(fn) if isinstance(n, ast.Call) and ast.unparse(n.func) == "self._trim"]
+    args_ok = sorted(ast.unparse(c.args[0]) for c in final_trim) == ["C", "T"]
+    if ok and sites >= 3 and args_ok:
+        run.obligation(name, "proved", detail=f"{sites} insertion sites: C is supported, T is reachable through all-generating rules with head in T, T is seeded by S only if S is generating; "
+                       "result = _trim(T) (resp. _trim(C) for bottomup_only)")
+    else:
+        run.obligation(name, "refuted" if sites else "out-of-subset", detail=why or f"result is not _trim(T)/_trim(C) (args_ok={args_ok})",
+                       replay=dict(replayed=False, why=why, hint="S -> A B, A -> a with B unproductive"), signature="trim:only-useful-rules")
